@@ -26,7 +26,9 @@ ASSUMPTIONS = ["only hyper-parameters are compared (a caller-supplied inner esti
 
 
 def bounds(tier):
-    return {"depth": 3 if tier == "quick" else 4, "layouts": ["C"] if tier == "quick" else ["C", "F", "readonly"]}
+    return {"depth": 3 if tier == "quick" else 4,
+            "layouts": ["C", "F", "strided", "negative", "transposed", "readonly"],
+            "layout_depth": 2 if tier == "quick" else 3}
 
 
 def _faulty_variants():
@@ -130,7 +132,7 @@ def cases(tier, seed):
                 K_ = 1 if tier == "quick" else (6 if lay == "C" else 2)
                 for k in range(K_):
                     # thorough: the histories of the deepest level are split over K_ cases (index modulo K_)
-                    yield {"cls": name, "variant": v, "depth": b["depth"] if lay == "C" else b["depth"] - 1, "layout": lay, "slice": [k, K_]}
+                    yield {"cls": name, "variant": v, "depth": b["depth"] if lay == "C" else b["layout_depth"], "layout": lay, "slice": [k, K_]}
     for name in _faulty_variants():
         K_ = 1 if tier == "quick" else 6
         for k in range(K_):
@@ -141,10 +143,13 @@ def _layout(a, lay):
     import numpy
     if not isinstance(a, numpy.ndarray):
         return a
-    a = numpy.array(a, order="F" if lay == "F" else "C", copy=True)
-    if lay == "readonly":
-        a.setflags(write=False)
-    return a
+    if lay == "C" or a.dtype.kind not in "iufb" or a.ndim not in (1, 2):
+        return numpy.array(a, order="C", copy=True)
+    from checks.catalog import layouts
+    nm = {"F": ("column of a C-ordered table", "Fortran order"), "strided": ("every second element", "strided window of a larger table"),
+          "negative": ("negative stride", "negative strides"), "transposed": ("column of a C-ordered table", "transposed window"),
+          "readonly": ("read-only", "read-only")}[lay][a.ndim - 1]
+    return dict(layouts(a))[nm]
 
 
 def _dig(v):
@@ -153,7 +158,10 @@ def _dig(v):
     if v is None:
         return None
     if isinstance(v, numpy.ndarray):
-        return (str(v.dtype), v.shape, hashlib.sha1(numpy.ascontiguousarray(v).tobytes()).hexdigest())
+        # a view: the buffer it is cut from counts as caller data as well
+        base = v.base if isinstance(v.base, numpy.ndarray) else None
+        return (str(v.dtype), v.shape, hashlib.sha1(numpy.ascontiguousarray(v).tobytes()).hexdigest(),
+                None if base is None else hashlib.sha1(numpy.ascontiguousarray(base).tobytes()).hexdigest())
     if hasattr(v, "to_json"):
         return v.to_json()
     return repr(v)
